@@ -153,9 +153,76 @@ let prog () =
   oexplore s1 0;
   Stdlib.List.iter print_endline (Stdlib.List.sort compare !edges)
 
+(* ---------------------------------------------------------------- seq2: replay on the EXACT owner machine (TreiberExact.stepx)
+   of event traces from the barrier harness (real threads parked by test hooks):
+     B<t>:<r> disposer t began destroying r and loaded the head      G<t>:ok|fail  link + CAS with that outcome (after a failure: reload)
+     F<t> link + spuriously failing CAS + reload      K0|K1 the owner's check answered null|non-null      X the owner's exchange
+     N<r> NewRow returned r (finishes the pending walk, if any)   C<ids> Clear returned   A T R D as before *)
+open TreiberExact
+let xst = ref xinit
+let firex xl = match stepx !xst xl with
+  | Some s -> xst := s; st := s.base
+  | None -> raise (Stuck (match xl with XL l -> lname l | XCheck -> "check"))
+let finish_walk () =
+  let rec loop k =
+    if k > 100000 then raise (Stuck "drain-loop") else
+    match !xst.base.own with
+    | ODrain None -> firex (XL ODone)
+    | ODrain (Some _) -> firex (XL ORead); firex (XL (OFree None)); loop (k + 1)
+    | _ -> raise (Stuck "owner-pc")
+  in loop 0
+let split2 s c = match String.index_opt s c with
+  | Some k -> (String.sub s 0 k, String.sub s (k + 1) (String.length s - k - 1)) | None -> (s, "")
+let event2 ev =
+  let c = ev.[0] and arg = String.sub ev 1 (String.length ev - 1) in
+  match c with
+  | 'K' -> firex XCheck;
+           if !xst.xo <> XChecked (arg = "1") then raise (Stuck "check-result")
+  | 'X' -> firex (XL OExchange)
+  | 'N' -> let r = int_of_string arg in note r;
+           (match !xst.xo with XAllocDrain -> finish_walk () | _ -> ());
+           firex (XL (OAlloc (n r, None))); firex (XL (Scribble (n r, Some (n 0))))
+  | 'C' -> (match !xst.xo with XDestroyDrain -> finish_walk () | _ -> raise (Stuck "clear-without-exchange"));
+           Stdlib.List.iter (fun r -> firex (XL (ORemove (n r, None)))) (ids_of arg)
+  | 'A' -> firex (XL (OAdd (n (int_of_string arg))))
+  | 'T' -> firex (XL (OExtract (n (int_of_string arg))))
+  | 'R' -> firex (XL (ORemove (n (int_of_string arg), None)))
+  | 'D' -> let t = n 9 in
+           firex (XL (DBegin (t, n (int_of_string arg)))); firex (XL (DLoad t)); firex (XL (DLink t)); firex (XL (DCas (t, false)));
+           if !xst.base.dpcs t <> Idle then raise (Stuck "main-thread-push-failed")
+  | 'B' -> let (t, r) = split2 arg ':' in let t = n (int_of_string t) in
+           firex (XL (DBegin (t, n (int_of_string r)))); firex (XL (DLoad t))
+  | 'G' -> let (t, res) = split2 arg ':' in let t = n (int_of_string t) in
+           firex (XL (DLink t)); firex (XL (DCas (t, false)));
+           (match !xst.base.dpcs t, res with
+            | Idle, "ok" -> ()
+            | Start _, "fail" -> firex (XL (DLoad t))
+            | _ -> raise (Stuck "cas-outcome"))
+  | 'F' -> let t = n (int_of_string arg) in
+           firex (XL (DLink t)); firex (XL (DCas (t, true))); firex (XL (DLoad t))
+  | '-' -> ()
+  | _ -> raise (Stuck "unknown-event")
+
+let run_seq2 evs =
+  xst := xinit; st := init; Hashtbl.reset known;
+  let buf = Buffer.create 256 in
+  let stuck = ref false in
+  Stdlib.List.iter (fun ev ->
+    if Buffer.length buf > 0 then Buffer.add_char buf ' ';
+    if !stuck then Buffer.add_string buf (ev ^ "|skipped")
+    else
+      (try event2 ev; Buffer.add_string buf (ev ^ observe ())
+       with Stuck l -> stuck := true; Buffer.add_string buf (ev ^ "|STUCK@" ^ l))) evs;
+  let s = !st in
+  let idle = Stdlib.List.for_all (fun t -> s.dpcs (n t) = Idle) [0; 1; 2; 3; 9] in
+  let q = idle && s.own = OIdle && s.head = None && !xst.xo = XIdle && same_set s.disposed s.reclaimed in
+  Buffer.add_string buf (Printf.sprintf " end|disp=%d|recl=%d|q=%d" (Stdlib.List.length s.disposed) (Stdlib.List.length s.reclaimed) (if q then 1 else 0));
+  print_endline (Buffer.contents buf)
+
 let () =
   if Array.length Sys.argv > 1 && Sys.argv.(1) = "prog" then prog ()
   else iter_lines (fun line ->
     match words line with
     | "seq" :: evs -> run_seq evs
+    | "seq2" :: evs -> run_seq2 evs
     | _ -> print_endline "?")
